@@ -31,3 +31,20 @@ Theorem C01_entries : forall m n (M : mat), TUmx (mx_of m n M) ->
   forall i j, (i < m)%N -> (j < n)%N -> get M i j \in [:: Zneg xH; Z0; Zpos xH].
 Proof. exact TUmx_entries. Qed.
 Print Assumptions C01_entries.
+
+(* ---------- every size: network matrices, certified by their digraph, are TU (NetworkTU.v), so an accepted `tu_net` record
+   carries a verdict that equals the definition although no brute-force oracle could decide it ---------- *)
+From Cmr Require GraphModel NetworkTU TuNetModel TuNetProofs.
+Theorem C01_network_matrices_of_every_size : forall rec cfg m n M rc v sub G f c r rest,
+  TuNetModel.tu_net_input rec = Some ((cfg, (m, n, M), rc, v, sub, GraphModel.WGraph G f c r), rest) ->
+  GraphModel.check_network_cert m n M G r f c = true ->
+  TuNetModel.judge_tu_net rec = Z0 ->
+  rc = Z0 /\ tu_bf m n M = true /\ (v = Zpos (xO xH) -> cfg_stopflags cfg = true) /\
+  (v <> Zpos (xO xH) -> v = Zpos xH /\ sub = None).
+Proof. exact TuNetProofs.judge_tu_net_sound. Qed.
+Print Assumptions C01_network_matrices_of_every_size.
+
+Theorem C01_network_matrix_is_TU_by_definition : forall m n M G rv forest coforest,
+  GraphModel.check_network_cert m n M G rv forest coforest = true -> TUmx (mx_of m n M).
+Proof. exact NetworkTU.network_cert_TU_gen. Qed.
+Print Assumptions C01_network_matrix_is_TU_by_definition.
